@@ -336,7 +336,10 @@ async fn run_history(a: &ShardArgs, idx: u64, steps: Vec<Step>, mut r: Rng, exha
                     }
                 }
             };
-            let strict = sel.as_ref().map(|s| s.repeats == 0 && s.fresh).unwrap_or(true);
+            let strict = sel
+                .as_ref()
+                .map(|s| s.repeats == 0 && s.fresh)
+                .unwrap_or(true);
             verdict = Some((j, why, strict));
         }
 
